@@ -12,6 +12,12 @@ from rtamt.semantics.discrete_time_interpreter import DiscreteTimeInterpreter
 from rtamt.exception.exception import RTAMTException
 from rtamt.syntax.node.ltl.next import Next
 from rtamt.syntax.node.ltl.strong_next import StrongNext
+from rtamt.syntax.node.ltl.eventually import Eventually
+from rtamt.syntax.node.ltl.always import Always
+from rtamt.syntax.node.ltl.until import Until
+from rtamt.syntax.node.stl.timed_eventually import TimedEventually
+from rtamt.syntax.node.stl.timed_always import TimedAlways
+from rtamt.syntax.node.stl.timed_until import TimedUntil
 
 from antlr4 import *
 from antlr4.InputStream import InputStream
@@ -314,6 +320,17 @@ class AbstractOnlineSpecification(AbstractSpecification):
                 if isinstance(node, (Next, StrongNext)):
                     raise RTAMTException('Next operator not implemented in STL dense-time monitor.')
                 nodes.extend(node.children)
+        future = False
+        nodes = list(self.ast.specs)
+        while nodes and not future:
+            node = nodes.pop()
+            future = isinstance(node, (Next, StrongNext, Eventually, Always, Until,
+                                       TimedEventually, TimedAlways, TimedUntil))
+            nodes.extend(node.children)
+        if not future:
+            # nothing to pastify: a specification without future operators - an already pastified one, for
+            # instance, whose late-started past operators a second translation would start at once - is left as it is
+            return
         if isinstance(self.online_interpreter, DiscreteTimeInterpreter):
             # one sampling period in the default unit: what a 'next' delays by and what bounds must be multiples of
             self.pastifier.sample = Fraction(self.online_interpreter.get_sampling_period()) / self.ast.U[self.ast.unit]
